@@ -387,15 +387,22 @@ CHECKS = {
           "Rectangular grids enumerate exactly the Cartesian product with the "
           "index formula (2-D) and have product size (any dimension); argmin "
           "returns the first index of a minimum; area weighted connectivity * "
-          "total weight = n.s.i. degree - own weight. Correspondence inside "
+          "total weight = n.s.i. degree - own weight. Accuracy, cosine domain: "
+          "the rounding model has relative error at most 2^-24 per operation "
+          "for every rational (proved for Base/F32), hence for trigonometric "
+          "inputs in [-1,1] the cosine handed to arccos is within 16 * 2^-24 "
+          "of the exact great-circle expression on the same inputs, and "
+          "clamping never moves it away from a value in [-1,1]. "
+          "Correspondence inside "
           "Coq: the kernel's cosine matrix bit-for-bit; Euclidean roots "
           "bracket the model's rounded sum of squares; rect grids up to 4-D; "
           "argmin. Search: float64 closed forms (atan2 form) on poles, "
           "antimeridian, coincident, nearly coincident and antipodal pairs; "
           "2^-10 absolute and 40u/sin(angle) bounds, range, triangle "
           "inequality, lookups, RegularGrid, weights. The angle-domain error "
-          "bounds and the triangle inequality are checked numerically only "
-          "(partial: no Coq statement about arccos).",
+          "bounds (after arccos, and the error of numpy's sin / cos of the "
+          "coordinates) and the triangle inequality are checked numerically "
+          "only (partial: no Coq statement about arccos).",
   "design_ref": "DESIGN.md section 5, C12",
   "note": "trusted: translator pyx_grid.py (ast over the two kernels and "
           "their callers, fail-closed); binary32 model Base/F32.v (normal "
